@@ -604,4 +604,56 @@ theorem cbNorm_adj (T : Table) (hT : TimerOk T) : ∀ (ls : List FLabel) (p : Op
       exact cbNorm_adj T hT ls (some k) f' (step_inv T hT f f' l o hinv hs)
         (fun k' hk' => by cases hk'; exact opens_keep T f f' l o k hinv hs hl hop) h1
 
+/-! ### both adjacencies at once: carrying a callback statement forward keeps `readRet; main` together -/
+
+theorem cbNorm_readAdj (T : Table) (hT : TimerOk T) (P : FSys → Prop) : ∀ (ls : List FLabel) (p : Option Nat) (f : FSys),
+    FInv f → (∀ k, p = some k → opens f k = true) → EndP P T f (pendc p ++ ls) → readAdj ls = true →
+    readAdj (cbNorm T p f ls) = true ∧ (headIsMain ls = true → headIsMain (cbNorm T p f ls) = true)
+  | [], none, _, _, _, _, _ => ⟨rfl, fun h => h⟩
+  | [], some k, _, _, _, _, _ => ⟨rfl, fun h => by cases h⟩
+  | l :: ls, none, f, hinv, _, h, hra => by
+    simp only [pendc, List.nil_append] at h
+    simp only [readAdj, Bool.and_eq_true] at hra
+    simp only [cbNorm]
+    cases ho : openK f l with
+    | some k =>
+      obtain ⟨rfl, hop⟩ := openK_spec f l k ho
+      exact ⟨(cbNorm_readAdj T hT P ls (some k) f hinv (fun k' hk' => by cases hk'; exact hop) h hra.2).1,
+        fun hh => by cases hh⟩
+    | none =>
+      obtain ⟨f', o, hs, h'⟩ := EndP_cons P T f l ls h
+      obtain ⟨i1, i2⟩ := cbNorm_readAdj T hT P ls none f' (step_inv T hT f f' l o hinv hs) (fun _ h => by cases h) h' hra.2
+      simp only [hs, readAdj, Bool.and_eq_true]
+      refine ⟨⟨?_, i1⟩, fun hh => by cases l <;> first | rfl | cases hh⟩
+      by_cases hr : isRead l = true
+      · rw [if_pos hr] at hra ⊢; exact i2 hra.1
+      · rw [if_neg hr]
+  | l :: ls, some k, f, hinv, hop, h, hra => by
+    have hop := hop k rfl
+    simp only [pendc, List.singleton_append] at h
+    simp only [readAdj, Bool.and_eq_true] at hra
+    simp only [cbNorm]
+    by_cases hl : l = .cb k
+    · subst hl
+      rw [if_pos rfl]
+      obtain ⟨f1, o1, hs1, h1⟩ := EndP_cons P T f _ _ h
+      obtain ⟨f2, o2, hs2, h2⟩ := EndP_cons P T f1 _ _ h1
+      have hrun : FSys.run T f [.cb k, .cb k] = some (f2, o1 ++ (o2 ++ [])) := by
+        simp only [FSys.run, hs1, hs2]
+      obtain ⟨i1, _⟩ := cbNorm_readAdj T hT P ls none f2 (run_inv T hT _ f f2 _ hinv hrun) (fun _ h => by cases h) h2 hra.2
+      simp only [hrun, readAdj, isRead, Bool.false_eq_true, if_false, Bool.true_and]
+      exact ⟨i1, fun hh => by cases hh⟩
+    · rw [if_neg hl]
+      have h' : EndP P T f (l :: .cb k :: ls) := by
+        obtain ⟨r, hr, hm⟩ := h
+        exact ⟨r, by rw [← cb_swap T f hinv k l ls hop hl]; exact hr, hm⟩
+      obtain ⟨f', o, hs, h1⟩ := EndP_cons P T f l _ h'
+      obtain ⟨i1, i2⟩ := cbNorm_readAdj T hT P ls (some k) f' (step_inv T hT f f' l o hinv hs)
+        (fun k' hk' => by cases hk'; exact opens_keep T f f' l o k hinv hs hl hop) h1 hra.2
+      simp only [hs, readAdj, Bool.and_eq_true]
+      refine ⟨⟨?_, i1⟩, fun hh => by cases l <;> first | rfl | cases hh⟩
+      by_cases hr : isRead l = true
+      · rw [if_pos hr] at hra ⊢; exact i2 hra.1
+      · rw [if_neg hr]
+
 end VaxisModel.Lemmas.ParserRunSchedGroup
